@@ -26,7 +26,7 @@ ASSUMPTIONS = [
     'Block.wirevector_set, results of wirevector_subset/logic_subset, SimulationTrace.wires_to_track); plain set literals/comprehensions '
     'inside PyRTL are not controlled; two (thorough: three) objects get symbolic ranks at a time, all others keep creation order',
     'real cross-process hash-seed behaviour is represented by this order model, not executed',
-    'the sort-key collision search is a finite enumeration over names of length <= 4 from {a, b, 0, 1, _} (named as such)',
+    'the sort-key collision search is a finite enumeration over names of length <= 4 from {a, b, A, 0, 1, _} (named as such)',
     'read-only: fingerprint as in C11; behaviour compared by the solver from the declared reset state',
 ]
 EMITTERS = ['verilog', 'testbench', 'vcd', 'print_trace']     # the texts the property names as byte-identical
@@ -36,7 +36,7 @@ READONLY = ['verilog', 'testbench', 'firrtl', 'trivialgraph', 'graphviz', 'svg',
 def bounds(tier):
     return {'read-only calls': READONLY, 'emitters under order exploration': EMITTERS,
             'order exploration': 'every pair of objects gets symbolic ranks (thorough: +sampled triples); designs <= 14 objects',
-            'key collision search': 'names of length <= 4 over {a,b,0,1,_}'}
+            'key collision search': 'names of length <= 4 over {a,b,A,0,1,_}'}
 
 
 def build_det(d):
@@ -68,6 +68,17 @@ def build_det(d):
         m[a2] <<= pyrtl.MemBlock.EnabledWrite(~d_, we2)
         o = pyrtl.Output(2, 'o')
         o <<= m[a2]
+    elif k == 'func_rom':
+        # function-backed ROM whose bitwidth is smaller than its addrwidth (output_to_firrtl materialises the data in place)
+        rom = pyrtl.RomBlock(bitwidth=2, addrwidth=4, romdata=lambda a: (a * 3 + 1) % 4, name='rom', asynchronous=True)
+        a = pyrtl.Input(4, 'a')
+        o = pyrtl.Output(2, 'o')
+        o <<= rom[a]
+    elif k == 'list_rom':
+        rom = pyrtl.RomBlock(bitwidth=5, addrwidth=2, romdata=[3, 9, 17, 30], name='rom', asynchronous=True)
+        a = pyrtl.Input(2, 'a')
+        o = pyrtl.Output(5, 'o')
+        o <<= rom[a]
     elif k == 'case_names':
         a, b = pyrtl.Input(2, 'Data'), pyrtl.Input(2, 'data')
         o = pyrtl.Output(3, 'o')
@@ -194,7 +205,8 @@ def emit(kind, block, trace=None):
         trace.print_trace(buf)
         trace.print_trace(buf, base=16, compact=True)
     elif kind == 'firrtl':
-        pyrtl.output_to_firrtl(buf, block=block)
+        roms = sorted({n.op_param[1] for n in block.logic_subset('m') if isinstance(n.op_param[1], pyrtl.RomBlock)}, key=lambda m: m.id)
+        pyrtl.output_to_firrtl(buf, rom_blocks=roms or None, block=block)
     elif kind == 'trivialgraph':
         pyrtl.output_to_trivialgraph(buf, block=block)
     elif kind == 'graphviz':
@@ -341,12 +353,12 @@ def run_readonly(case, ob, site):
 
 def key_collisions():
     """pairs of distinct legal names with equal sort keys (finite enumeration)"""
-    alphabet = 'ab01_'
+    alphabet = 'abA01_'
     names = []
     for n in range(1, 5):
         for tup in itertools.product(alphabet, repeat=n):
             s = ''.join(tup)
-            if s[0] in 'ab_':
+            if s[0] in 'abA_':
                 names.append(s)
     out = {}
     for fn_name, fn in (('importexport._natural_sort_key', ie._natural_sort_key), ('simulation._trace_sort_key', simmod._trace_sort_key)):
@@ -379,9 +391,10 @@ def cases(tier, seed):
                 continue
             out.append(dict(d, k='determinism', emitter=e, sample=None if tier != 'quick' else 30))
     ro = designs.expr_cases(6 if tier == 'quick' else 40, seed + 51, n=6, maxw=4, nrom=0, ops=['+', '-', '&', '|', '^', '~', '<', 'x', 'c', 's', 'trunc', 'const']) + \
-        [c for c in designs.seq_cases(widths=(3,)) if c['kind'] != 'rom_reg'] + designs.misc_cases()[:8] + [{'fam': 'DET', 'kind': 'small'}]
+        [c for c in designs.seq_cases(widths=(3,)) if c['kind'] != 'rom_reg'] + designs.misc_cases()[:8] + [{'fam': 'DET', 'kind': 'small'},
+                                                                                                       {'fam': 'DET', 'kind': 'func_rom'}, {'fam': 'DET', 'kind': 'list_rom'}]
     for i, c in enumerate(ro):
-        calls = READONLY if (tier != 'quick' or i % 4 == 0) else [READONLY[i % len(READONLY)], 'firrtl']
+        calls = READONLY if (tier != 'quick' or i % 4 == 0 or c['fam'] == 'DET') else [READONLY[i % len(READONLY)], 'firrtl']
         for call in dict.fromkeys(calls):
             if call == 'firrtl' and (c['fam'] == 'SEQ' and 'mem' in c['kind'] or c['fam'] == 'MISC' and 'mem' in c['kind']):
                 continue
